@@ -281,9 +281,56 @@ def search(ctx, broken, mismatches):
     return []
 
 
+def rebuild_instance(case):
+    """Instance from the case stored in a replay file."""
+    moore = case['moore']
+    if 'decl' in case:
+        ar = games.Arena(case['decl'], case['backend'])
+        aut = ar.aut
+        aut.moore = moore
+        aut.plus_one = True
+        aut.varlist['impl'] = list(aut.varlist['sys'])
+        aut.prime_varlists()
+        EIcol = case['EIcol']
+        EI = [EIcol[x] for (c, x, y) in ar.states()]
+        aut.action['env'] = ar.bdd2(case['E'])
+        aut.action['impl'] = ar.bdd2(case['S'])
+        aut.init['env'] = ar.bdd1(EI)
+        aut.init['impl'] = ar.bdd1(case['SI'])
+        return dict(kind='handmade', ear=ar, aut=aut, E=case['E'], S=case['S'],
+                    EIcol=EIcol, SI=case['SI'], moore=moore)
+    if 'game' in case:
+        g = gr1games.rebuild(case['game'])
+        r = transducers.build_streett(g, moore, case['plus_one'], case['qinit'])
+        if r is None:
+            return None
+        from props.c02 import _c
+        return dict(kind='synth', ear=r['ear'], aut=r['aut'],
+                    E=_c.lifted(g, r, tab2=g['E']), S=r['action'],
+                    EIcol=case['EIcol'], SI=r['init'], moore=moore)
+    return None
+
+
 def replay(path):
     import json
     d = json.load(open(path))
-    print(json.dumps(d.get('what') or d.get('broken'))[:400])
-    print('replay by re-running: ./check C12 (the failing graph is in the file)')
-    return 1
+    case = d.get('input') or d.get('case')
+    if not case or 'qinit' not in case:
+        print('no concrete input in replay file:', d.get('broken'))
+        return 1
+    inst = rebuild_instance(case)
+    if inst is None:
+        print('the instance cannot be rebuilt (construction refused)')
+        return 2
+    r = enumerate_real(inst, case['qinit'])
+    if r[0] == 'rejected':
+        print('passes (the enumeration rejects this input:', r[1], ')')
+        return 0
+    nodes, edges, initial = r
+    bad = graph_oracle(inst, nodes, edges) or \
+        init_oracle(inst, case['qinit'], nodes, initial)
+    if bad:
+        print('still fails:', bad)
+        return 1
+    print('passes')
+    return 0
